@@ -157,6 +157,14 @@ fn full_pool() -> Vec<Ty> {
         Ty::Ts(0, None),
         Ty::Ts(3, Some("+01:00".into())),
         Ty::Ts(2, Some("America/New_York".into())),
+        Ty::Ts(1, Some("UTC".into())),
+        Ty::Ts(0, Some("Asia/Tokyo".into())),
+        Ty::Ts(2, None),
+        Ty::Dec(5, 0),
+        Ty::Dec(20, 18),
+        Ty::Dec256(40, 5),
+        Ty::FixedBin(4),
+        Ty::Dict(true, Box::new(Ty::I64)),
         Ty::Dur(3),
         Ty::IntervalYM,
         Ty::IntervalDT,
@@ -175,7 +183,7 @@ fn full_pool() -> Vec<Ty> {
 
 fn reduced_pool() -> Vec<Ty> {
     let l = |t: Ty| Ty::List(Box::new(t));
-    vec![Ty::I64, Ty::I32, Ty::F64, Ty::Utf8, Ty::Utf8View, Ty::LargeUtf8, Ty::Bool, Ty::Ts(3, None), Ty::Date32, Ty::IntervalMDN, l(Ty::I64), l(Ty::Utf8), Ty::Binary, Ty::Null]
+    vec![Ty::I64, Ty::I32, Ty::F64, Ty::Utf8, Ty::Utf8View, Ty::LargeUtf8, Ty::Bool, Ty::Ts(3, None), Ty::Ts(2, Some("America/New_York".into())), Ty::Dec(10, 2), Ty::Date32, Ty::IntervalMDN, l(Ty::I64), l(Ty::Utf8), Ty::Binary, Ty::Null]
 }
 
 fn arities(sig: &TypeSignature, out: &mut Vec<usize>) {
@@ -728,11 +736,11 @@ impl Property for C32 {
     }
 
     fn run(&self, case: &Case) -> CaseResult {
-        run_cached(case)
+        run_cached(case, false)
     }
 
     fn known_signature(&self, case: &Case) -> Option<String> {
-        known_sig(case)
+        known_sig(case, false)
     }
 
     fn extra(&self, _tier: Tier, _seed: u64) -> Result<Value, (String, Case)> {
@@ -766,8 +774,8 @@ pub const STARVED_OK: &[(&str, &str)] = &[];
 /// Signature of a failing case: `<function>:<kind>` where kind is the representation (or contract clause)
 /// that disagrees. Entries of /verif/known_findings.json with such a signature exclude exactly the cases of
 /// that function failing in that way (the case is evaluated to find out; the result is cached for `run`).
-fn known_sig(case: &Case) -> Option<String> {
-    let r = run_cached(case);
+fn known_sig(case: &Case, contract_only: bool) -> Option<String> {
+    let r = run_cached(case, contract_only);
     match &r.outcome {
         Outcome::Violation(m) => m.strip_prefix("[sig=").and_then(|rest| rest.split(']').next()).map(|s| s.to_string()),
         _ => None,
@@ -778,12 +786,12 @@ thread_local! {
     static LAST: std::cell::RefCell<Option<(u64, CaseResult)>> = const { std::cell::RefCell::new(None) };
 }
 
-fn run_cached(case: &Case) -> CaseResult {
-    let fp = serde_json::to_vec(case).map(|b| fnv1a(&b)).unwrap_or(0);
+fn run_cached(case: &Case, contract_only: bool) -> CaseResult {
+    let fp = serde_json::to_vec(case).map(|b| fnv1a(&b)).unwrap_or(0) ^ (contract_only as u64);
     if let Some(r) = LAST.with(|l| l.borrow().as_ref().filter(|(f, _)| *f == fp).map(|(_, r)| r.clone())) {
         return r;
     }
-    let r = run_case(case);
+    let r = run_case(case, contract_only);
     LAST.with(|l| *l.borrow_mut() = Some((fp, r.clone())));
     r
 }
@@ -798,7 +806,8 @@ fn kind_of(msg: &str) -> &'static str {
     "contract"
 }
 
-fn run_case(case: &Case) -> CaseResult {
+/// `contract_only`: judge only "declared type + one value per row" (the function-level part of C30)
+fn run_case(case: &Case, contract_only: bool) -> CaseResult {
     let Some(info) = find_fn(&case.func) else { return CaseResult::discard("unknown function") };
     let name = info.name.as_str();
     let udf = info.udf.as_ref();
@@ -817,7 +826,7 @@ fn run_case(case: &Case) -> CaseResult {
     let sig = format!("{name}({})", case.types.iter().map(|t| t.short()).collect::<Vec<_>>().join(","));
     macro_rules! violation {
         ($kind:expr, $($arg:tt)*) => {
-            return CaseResult::violation(format!("[sig={name}:{}] {sig}: {}", $kind, format!($($arg)*))).labels(labels.clone())
+            return CaseResult::violation(format!("[sig={name}:{}] {sig}: {}", if contract_only { "contract" } else { $kind }, format!($($arg)*))).labels(labels.clone())
         };
     }
 
@@ -901,7 +910,7 @@ fn run_case(case: &Case) -> CaseResult {
                 accepted_alts += 1;
                 if let Ok(b) = &reference {
                     compared += 1;
-                    if a.rendered != b.rendered {
+                    if !contract_only && a.rendered != b.rendered {
                         let i = (0..rows).find(|i| a.rendered[*i] != b.rendered[*i]).unwrap_or(0);
                         return Err(format!(
                             "{what}: row {i} differs: reference ({ref_name}) = {} [{}], {what} = {} [{}]; arguments of that row: {:?}",
@@ -996,6 +1005,38 @@ fn run_case(case: &Case) -> CaseResult {
         }
     }
 
+    // ---- typed NULL in every argument position, as a scalar and as an all-NULL array, the other arguments as in
+    // the reference and with all constants as scalars: only the type / length contract is judged
+    let mut null_ok = 0u64;
+    for i in 0..n {
+        for as_scalar in [true, false] {
+            for other_scalars in [&ref_scalars, &const_idx] {
+                let r = (|| -> Result<Evaluated, EvalErr> {
+                    let mut args = make_args(&case.types, 0, rows, other_scalars, None).map_err(EvalErr::Plan)?;
+                    args[i] = if as_scalar { Arg::Scalar(to_scalar(&V::Null, &case.types[i])) } else { Arg::Array(to_array(&vec![V::Null; rows], &case.types[i]).map_err(EvalErr::Plan)?) };
+                    evaluate(udf, &args, rows)
+                })();
+                match r {
+                    Err(EvalErr::Contract(m)) => {
+                        violation!("contract", "argument {i} a NULL {} ({}), constants {other_scalars:?} as scalars: {m}", if as_scalar { "scalar" } else { "array" }, case.types[i].short())
+                    }
+                    Ok(_) => null_ok += 1,
+                    Err(_) => {}
+                }
+                if other_scalars == &const_idx && ref_scalars == const_idx {
+                    break;
+                }
+            }
+        }
+    }
+    if null_ok > 0 {
+        labels.push("alt:null-arg-contract".into());
+        accepted_alts += null_ok;
+        if contract_only {
+            compared += null_ok;
+        }
+    }
+
     // ---- split into pieces (same scalar-ness as the reference)
     if rows >= 2 {
         let rowwise: Vec<Result<Evaluated, EvalErr>> = (0..rows).map(|i| eval_with(&case.types, i, i + 1, &ref_scalars, None)).collect();
@@ -1010,15 +1051,16 @@ fn run_case(case: &Case) -> CaseResult {
             match &reference {
                 Ok(b) => {
                     compared += 1;
-                    if b.rendered != per_row {
+                    if !contract_only && b.rendered != per_row {
                         let i = (0..rows).find(|i| b.rendered[*i] != per_row[*i]).unwrap_or(0);
                         violation!("split-rows", "row {i} evaluated alone gives {} but inside the {rows}-row batch {} ({ref_name}); arguments of that row: {:?}", per_row[i], b.rendered[i], case.cols.iter().map(|c| &c[i]).collect::<Vec<_>>());
                     }
                     labels.push("alt:split-rows".into());
                 }
                 Err(EvalErr::NotImpl(_)) | Err(EvalErr::Plan(_)) => labels.push("rowwise-ok-but-batch-rejected-cleanly".into()),
-                Err(EvalErr::Panic(m)) => violation!("rows-ok-batch-fails", "every row evaluates successfully alone but the {rows}-row batch panics: {m}"),
-                Err(EvalErr::Exec(m)) => violation!("rows-ok-batch-fails", "every row evaluates successfully alone but the {rows}-row batch fails: {m}"),
+                Err(EvalErr::Panic(m)) if !contract_only => violation!("rows-ok-batch-fails", "every row evaluates successfully alone but the {rows}-row batch panics: {m}"),
+                Err(EvalErr::Exec(m)) if !contract_only => violation!("rows-ok-batch-fails", "every row evaluates successfully alone but the {rows}-row batch fails: {m}"),
+                Err(EvalErr::Panic(_)) | Err(EvalErr::Exec(_)) => {}
                 Err(EvalErr::Contract(_)) => {}
             }
         } else {
@@ -1043,7 +1085,7 @@ fn run_case(case: &Case) -> CaseResult {
                 if let Ok(b) = &reference {
                     compared += 1;
                     let joined: Vec<String> = parts.iter().flat_map(|r| r.as_ref().map(|e| e.rendered.clone()).unwrap_or_default()).collect();
-                    if joined != b.rendered {
+                    if !contract_only && joined != b.rendered {
                         let i = (0..rows).find(|i| b.rendered[*i] != joined[*i]).unwrap_or(0);
                         violation!("split-k", "row {i} evaluated in {k}-row pieces gives {} but inside the {rows}-row batch {} ({ref_name}); arguments of that row: {:?}", joined[i], b.rendered[i], case.cols.iter().map(|c| &c[i]).collect::<Vec<_>>());
                     }
@@ -1092,4 +1134,44 @@ fn run_case(case: &Case) -> CaseResult {
     labels.sort();
     labels.dedup();
     CaseResult::pass().nontrivial(nt).labels(labels)
+}
+
+// ---------------------------------------------------------------------------------------------
+// C30, function-level part: every scalar function result has the declared type and one value per row
+
+pub struct C30Fn;
+
+impl Property for C30Fn {
+    type Case = Case;
+    fn id(&self) -> &'static str {
+        "C30"
+    }
+    fn sub(&self) -> &'static str {
+        "c30fn"
+    }
+    fn strategy(&self, tier: Tier) -> BoxedStrategy<Case> {
+        case_strategy(tier)
+    }
+    fn budget(&self, tier: Tier) -> Budget {
+        Budget::new(tier.pick(10_000, 400_000), tier.pick(8, 16)).min_nontrivial(tier.pick(2_000, 80_000)).discard_cap(0.5)
+    }
+    fn rule(&self) -> String {
+        "the C32 generator (function x coerced type vector x 1-12 rows, constant / varying arguments); every representation (all arrays, constants as scalars, string / binary encodings, dictionaries, sliced arrays, 1-row and k-row pieces, \
+         and a typed NULL scalar / all-NULL array in every argument position) is judged only for: result type = return_field_from_args, and one value per row (array of number_rows, scalar, or 1-row array for all-scalar arguments); \
+         an internal error of the ScalarUDF wrapper saying the returned type contradicts the promised one counts as a violation; non-trivial = reference evaluation succeeded with a non-NULL value and >= 1 alternative evaluated"
+            .into()
+    }
+    fn assumptions(&self) -> Vec<String> {
+        let mut v = vec!["same scope, deny-list and value pools as C32 (vf-fn c32)".to_string(), "debug-assertion builds: ScalarUDF::invoke_with_args reports a type mismatch as an internal error, which is read as a contract violation".to_string()];
+        for (n, why) in DENY {
+            v.push(format!("deny-list: {n} ({why})"));
+        }
+        v
+    }
+    fn run(&self, case: &Case) -> CaseResult {
+        run_cached(case, true)
+    }
+    fn known_signature(&self, case: &Case) -> Option<String> {
+        known_sig(case, true)
+    }
 }
